@@ -255,6 +255,7 @@ pub struct Stats {
     pub entries_dropped: u64,
     pub lingering: u64,
     pub events_validated: u64,
+    pub selections_checked: u64,
     pub states_validated: u64,
     pub retention_checks: u64,
 }
@@ -318,7 +319,7 @@ fn file_tok(f: &raindb::verif::FileDump, entries: Option<&Vec<raindb::verif::Ent
         entries.map_or("_".to_string(), |e| ents_tok(e))
     )
 }
-fn levels_tok(levels: &[Vec<raindb::verif::FileDump>], entries: &BTreeMap<u64, Vec<raindb::verif::Entry>>) -> String {
+pub fn levels_tok(levels: &[Vec<raindb::verif::FileDump>], entries: &BTreeMap<u64, Vec<raindb::verif::Entry>>) -> String {
     levels
         .iter()
         .map(|l| if l.is_empty() { "_".to_string() } else { l.iter().map(|f| file_tok(f, entries.get(&f.number))).collect::<Vec<_>>().join(";") })
@@ -1063,6 +1064,17 @@ pub fn run_history(h: &History, checks: &Checks, fs: &SimFs) -> RunOut {
                             if st2.levels == st.levels && st2.mem.len() == st.mem.len() {
                                 if let Some(dr2) = drv.as_mut() {
                                     validate_state(dr2, d, &st2, &probes, &mut obs, &mut stats, &mut drift, i);
+                                    // the real input selection on this (real) version, against the model
+                                    let mut prng = crate::prng::Prng::new(0x91C4 ^ (i as u64) ^ ((st2.next_file_number) << 16));
+                                    for _ in 0..2 {
+                                        match crate::pick::select(&st2.levels, &mut prng, dr2, "real-version") {
+                                            crate::pick::Outcome::Agree(..) => stats.selections_checked += 1,
+                                            crate::pick::Outcome::Drift(case, what) => drift.push(format!("{what} :: {case}")),
+                                            crate::pick::Outcome::Invalid(_, what) => obs.push(Obs { sig: "c07:selected-compaction-inputs-invalid".into(), what, at: i }),
+                                            crate::pick::Outcome::Panic(_) => obs.push(Obs { sig: "c09:input-selection-panics".into(), what: "finalize_compaction_inputs panicked on the database's own version".into(), at: i }),
+                                            crate::pick::Outcome::Skipped => {}
+                                        }
+                                    }
                                 }
                             }
                         }
